@@ -19,11 +19,14 @@ import framework as fw
 
 LEVEL = "proof"
 TECHNIQUE = "Lean 4 fold model + AST-regenerated interface table (decide) + recording stubs + real-kernel sweep"
-RULE = ("stub events: 1-4 particles (roots and children), 1-3 antennas, tracer table none | 0..3 paths per "
-        "(particle, antenna), viewing angles at -30..+100 degrees from the Cherenkov angle, signal model raising on "
-        "demand, weights in {None, 1/16, 1/4, 1/2, 1} and forced weights against weight_min in {None, 0.1, 0.25, 0.5, "
+RULE = ("stub kernels: 1-3 consecutive event() calls on one kernel object (events may repeat), each event 1-5 "
+        "particles (roots and children, particles sharing a vertex, the same Particle object twice), 1-3 antennas, "
+        "tracer table none | 0..3 paths per (vertex, antenna), signal model refusing some (particle, path) pairs, "
+        "aliasing probes (received signals / writer lists must not share or later change state), viewing angles "
+        "at -30..+100 degrees from the Cherenkov angle, weights in {None, 1/16, 1/4, 1/2, 1} and forced weights against weight_min in {None, 0.1, 0.25, 0.5, "
         "(0.5,0.5), (0.25,0.75)}, offcone_max in {None, 5, 20}, triggers none | function | dict, writer on/off, "
-        "consecutive calls on one kernel; real events: {Specialized, Basic, Uniform(+UniformIce), "
+        "real kernels (two consecutive events each; list/file events have particles sharing a vertex and repeated "
+        "Particle objects): {Specialized, Basic, Uniform(+UniformIce), "
         "Layered(+LayeredIce)} x {ARZ, AVZ, ZHS} x {Cylindrical, Rectangular, List, File} x offcone {None,5} x "
         "weight_min {None,0.1,(0.5,0.5)} x interpolation {None,0.1} x writer x trigger {None,fn,dict}, three antennas "
         "(one above the ice); quick samples the product, thorough enumerates it; non-trivial = at least one signal "
@@ -33,8 +36,9 @@ LEVEL_TEXT = ("theorems over all events / antenna sets / component functions of 
               "exact recording-stub run and a tolerance run (grids rel 1e-12) of the real kernel")
 LEVEL_NOTE = ("C10_aligned assumes that propagate delays its input grid by the path's tof (property C03) - checked on "
               "every real combination; exceptions other than ValueError from a signal model propagate and are not "
-              "modelled; antennas are assumed to be distinct objects that only record what they receive. No _partial "
-              "theorem.")
+              "modelled; antennas are assumed to be distinct objects that only record what they receive; object identity / "
+              "aliasing of the signals and lists handed over is outside the Lean value model and is checked by the "
+              "harness only (mutation and shares_memory probes after every event). No _partial theorem.")
 CHECKER_MODULES = ["PyrexVerif.Proofs.Kernel", "PyrexVerif.Gen.Interfaces", "PyrexVerif.D.Kernel"]
 EXTRACTORS = ["interfaces"]
 ASSUMPTIONS = ["the signature reader (harness/extract/interfaces.py) reflects Python's argument binding "
@@ -63,13 +67,15 @@ def grid_s(ts):
     return "%d" % len(ts) + "".join(" " + frs(t) for t in ts)
 
 
-# =============================================================================================
-# recording stubs
 class Log(list):
     pass
 
 
-def make_stubs(case, log):
+# =============================================================================================
+# recording stubs
+def make_stubs(ctx, log):
+    """`ctx` is the mutable per-event context (tracer table, paths, refusals): the kernel object and
+    its component classes live across several events, only the context changes."""
     np = _np()
     from pyrex.signals import Signal
 
@@ -79,31 +85,28 @@ def make_stubs(case, log):
     ice = StubIce()
 
     class StubPath:
-        def __init__(self, pid, ant, ent):
-            self.pid, self.ant, self.id = pid, ant, ent["id"]
+        def __init__(self, vid, ant, ent):
+            self.vid, self.ant, self.id = vid, ant, ent["id"]
             self.tof = ent["tof"]
             self.emitted_direction = np.array(ent["e"])
             self.received_direction = -np.array(ent["e"])
             self.path_length = 100.0 + ent["id"]
+            self.outs = []
 
         def propagate(self, signal=None, polarization=None, attenuation_interpolation=None):
-            log.append(("propagate", self.pid, self.id, signal, polarization, attenuation_interpolation))
+            log.append(("propagate", signal._pid, self.id, signal, polarization, attenuation_interpolation))
             a = Signal(signal.times + self.tof, signal.values, Signal.Type.field)
             b = Signal(signal.times + self.tof, 2 * signal.values, Signal.Type.field)
-            a._tag = b._tag = (self.pid, self.id)
-            self.out = ([a, b], [np.array([1.0, 0, 0]), np.array([0, 1.0, 0])])
-            return self.out
-
-    paths = {}
-    for (pid, ant), ents in case["table"].items():
-        paths[(pid, ant)] = None if ents is None else [StubPath(pid, ant, e) for e in ents]
-    ok = {e["id"]: e["ok"] for ents in case["table"].values() if ents for e in ents}
+            a._tag = b._tag = (signal._pid, self.id)
+            out = ([a, b], [np.array([1.0, 0, 0]), np.array([0, 1.0, 0])])
+            self.outs.append(out)
+            return out
 
     class StubTracer:
         def __init__(self, from_point, to_point, ice_model=None):
             key = (int(round(float(from_point[0]) / 10)), int(round(float(to_point[0]))))
             log.append(("tracer", key, ice_model is ice))
-            self._sols = paths[key]
+            self._sols = ctx["paths"][key]
 
         @property
         def exists(self):
@@ -117,9 +120,10 @@ def make_stubs(case, log):
         def __init__(self, times, particle, viewing_angle, viewing_distance=1, ice_model=None, t0=0):
             pathid = int(round(viewing_distance - 100.0))
             log.append(("signal", particle, pathid, float(viewing_angle), ice_model is ice, times))
-            if not ok[pathid]:
-                raise ValueError("stub signal model refuses path %d" % pathid)
+            if (particle._pid, pathid) in ctx["refuse"]:
+                raise ValueError("stub signal model refuses particle %d path %d" % (particle._pid, pathid))
             super().__init__(times, np.ones(len(times)), Signal.Type.field)
+            self._pid = particle._pid
 
     class StubAntenna:
         def __init__(self, i):
@@ -127,7 +131,11 @@ def make_stubs(case, log):
             self.calls = []
 
         def receive(self, signal, direction=None, polarization=None, force_real=False):
-            self.calls.append((signal, direction, polarization))
+            first = signal[0] if isinstance(signal, list) else signal
+            self.calls.append((signal, direction, polarization, np.array(first.times)))
+
+        def clear(self):
+            self.calls = []
 
     class Writer:
         is_open = True
@@ -138,14 +146,18 @@ def make_stubs(case, log):
 
         def add(self, event, triggered=None, ray_paths=None, polarizations=None, events_thrown=1):
             self.calls.append(dict(event=event, triggered=triggered, ray_paths=[list(x) for x in ray_paths],
-                                   polarizations=[list(x) for x in polarizations], events_thrown=events_thrown))
+                                   polarizations=[list(x) for x in polarizations], events_thrown=events_thrown,
+                                   raw_paths=ray_paths, raw_pols=polarizations))
 
         def create_analysis_metadataset(self, *a, **k):
             pass
 
         def add_analysis_metadata(self, *a, **k):
             pass
-    return ice, paths, StubTracer, StubSignal, StubAntenna, Writer
+
+    def build_paths(table):
+        return {k: (None if ents is None else [StubPath(k[0], k[1], e) for e in ents]) for k, ents in table.items()}
+    return ice, build_paths, StubTracer, StubSignal, StubAntenna, Writer
 
 
 def trig_fn(spec):
@@ -158,19 +170,24 @@ def trig_s(spec):
     return "%s %d %d" % spec if spec[0] == "G" else "%s %d" % spec
 
 
-def build_particles(case):
+def build_event(evd):
+    """-> (Event, {pid: Particle}, iteration order as pids).  Particles of one vertex group share a
+    vertex; `dup_of` entries put the SAME Particle object into the event a second time."""
     import pyrex
     ps = {}
-    for pe in case["particles"]:
-        p = pyrex.Particle("nu_e", vertex=(10.0 * pe["id"], 0.0, -200.0), direction=pe["dir"], energy=1e9,
+    for pe in evd["particles"]:
+        if pe["dup_of"] is not None:
+            continue
+        p = pyrex.Particle("nu_e", vertex=(10.0 * pe["vid"], 0.0, -200.0), direction=pe["dir"], energy=1e9,
                            interaction_type="cc", weight=pe["forced"])
         p.survival_weight = pe["sw"]
         p.interaction_weight = pe["iw"]
         p._pid = pe["id"]
         ps[pe["id"]] = p
-    roots = [ps[pe["id"]] for pe in case["particles"] if pe["parent"] is None]
+    roots = [ps[pe["id"] if pe["dup_of"] is None else pe["dup_of"]] for pe in evd["particles"]
+             if pe["parent"] is None]
     ev = pyrex.Event(roots)
-    for pe in case["particles"]:
+    for pe in evd["particles"]:
         if pe["parent"] is not None:
             ev.add_children(ps[pe["parent"]], [ps[pe["id"]]])
     order = [p._pid for p in ev]
@@ -182,20 +199,29 @@ def nu_pol(np, d, e):
     return normalize(np.vdot(e, d) * e - d)
 
 
+def vid_of(evd, pid):
+    return next(pe["vid"] for pe in evd["particles"] if pe["id"] == pid and pe["dup_of"] is None)
+
+
 def run_stub(case):
-    """-> (request line for the model, reply text observed on the implementation)"""
+    """one kernel, several consecutive event() calls.
+    -> list of (request line for the model, reply text observed on the implementation)"""
     np = _np()
     import pyrex
     from pyrex.kernel import EventKernel
     from pyrex.signals import EmptySignal
     from pyrex.generation import ListGenerator
     log = Log()
-    ice, paths, StubTracer, StubSignal, StubAntenna, Writer = make_stubs(case, log)
-    ev, ps, order = build_particles(case)
-    ev._eid = 7
+    ctx = {"paths": {}, "refuse": set()}
+    ice, build_paths, StubTracer, StubSignal, StubAntenna, Writer = make_stubs(ctx, log)
+    built = []
+    for evd in case["events"]:
+        if evd.get("same_as") is not None:
+            built.append(built[evd["same_as"]])
+        else:
+            built.append(build_event(evd) + (evd,))
     filler = pyrex.Event([pyrex.Particle("nu_e", (0, 0, -300), (0, 0, 1), 1e9, interaction_type="cc")])
-    filler._eid = 8
-    gen = ListGenerator([filler, ev])
+    gen = ListGenerator([filler] + [b[0] for b in built], loop=False)
     gen.create_event()                      # count = 1 before the kernel exists
     ants = [StubAntenna(i) for i in range(case["nant"])]
     writer = Writer() if case["writer"] else None
@@ -211,16 +237,6 @@ def run_stub(case):
                        signal_times=times, event_writer=writer, triggers=triggers,
                        offcone_max=case["offcone"], weight_min=case["wmin"],
                        attenuation_interpolation=case["interp"])
-    gen.count = gen.count + case["extra_throws"]       # throws not returned (shadowing) since the kernel was built
-    seen = kern._gen_count
-    try:
-        res = kern.event()
-    except KeyError as e:
-        res = "keyerror"
-    except Exception as e:
-        return None, "exception %s: %s" % (type(e).__name__, str(e)[:120])
-    after = gen.count
-    # ---- request for the model (independent recomputation of what the components answer)
     theta_c = float(np.arccos(1 / ice.index(-200.0)))
     offmax = float(np.radians(180 if case["offcone"] is None else case["offcone"]))
     wm = case["wmin"]
@@ -236,107 +252,160 @@ def run_stub(case):
         ts_ = "F " + trig_s(t[1])
     else:
         ts_ = "D %d " % len(t[1]) + " ".join("%s %s" % (k, trig_s(s)) for k, s in t[1])
-    parts = []
-    psi_of = {}
-    for pid in order:
-        p = ps[pid]
-        s = "%d %s %s %s %s" % (pid, opt(p.survival_weight), opt(p.interaction_weight), opt(p._forced_weight),
-                                frs(theta_c))
-        for i in range(case["nant"]):
-            sols = paths[(pid, i)]
-            if sols is None:
-                s += " N"
-            else:
-                s += " S %d" % len(sols)
-                for path in sols:
-                    psi = float(np.arccos(np.vdot(p.direction, path.emitted_direction)))
-                    psi_of[(pid, path.id)] = psi
-                    if abs(abs(psi - theta_c) - offmax) < 1e-9:
-                        raise AssertionError("generated viewing angle sits on the off-cone boundary")
-                    s += " %d %s %s %d" % (path.id, frs(path.tof), frs(psi), 1 if any(
-                        e["id"] == path.id and e["ok"] for e in case["table"][(pid, i)]) else 0)
-        parts.append(s)
-    req = "ev %d %s %s %s %s %d %d %d %d %d %s" % (
-        case["nant"], grid_s(case["times"]), wms, frs(offmax), ts_, 1 if writer else 0, seen, after, 7,
-        len(parts), " ".join(parts))
-    # ---- what the implementation did, in the model's words
-    bad = []
-    allpaths = {path.id: path for sols in paths.values() if sols for path in sols}
-    segs = []
-    for i, a in enumerate(ants):
-        out = []
-        for sig, direction, pol in a.calls:
-            if isinstance(sig, EmptySignal) and direction is None and pol is None:
-                if sig.value_type != EmptySignal.Type.field:
-                    bad.append("empty-signal-type")
-                out.append("E " + grid_s(sig.times))
-            elif isinstance(sig, list) and all(hasattr(x, "_tag") for x in sig):
-                pid, pathid = sig[0]._tag
-                path = allpaths[pathid]
-                if sig is not path.out[0] or pol is not path.out[1] or direction is not path.received_direction:
-                    bad.append("receive-args")
-                out.append("P %d %d %s" % (pid, pathid, grid_s(sig[0].times)))
-            else:
-                out.append("?")
-        segs.append("a %d" % len(out) + "".join(" " + o for o in out))
-    # keyword arguments seen by the components
-    for ent in log:
-        if ent[0] == "tracer" and not ent[2]:
-            bad.append("tracer-ice")
-        if ent[0] == "signal":
-            _, p, pathid, va, ice_ok, tms = ent
-            if not ice_ok or tms is not kern.signal_times or va != psi_of[(p._pid, pathid)]:
-                bad.append("signal-args")
-        if ent[0] == "propagate":
-            _, pid, pathid, sig, pol, interp = ent
-            exp = nu_pol(np, ps[pid].direction, allpaths[pathid].emitted_direction)
-            if not isinstance(sig, StubSignal) or interp != case["interp"] or not np.array_equal(pol, exp):
-                bad.append("propagate-args")
+    results = []
+    for k, (ev, ps, order, evd) in enumerate(built):
+        ev._eid = 7 + k
+        ctx["paths"] = paths = build_paths(evd["table"])       # fresh path objects for every call
+        ctx["refuse"] = {tuple(x) for x in evd["refuse"]}
+        for a in ants:
+            a.clear()                                           # what detector.clear() does between events
+        del log[:]
+        gen.count = gen.count + case["events"][k]["extra_throws"]   # throws not returned since the last call
+        seen = kern._gen_count
+        try:
+            res = kern.event()
+        except KeyError:
+            res = "keyerror"
+        except Exception as e:
+            results.append((None, "exception %s: %s" % (type(e).__name__, str(e)[:120])))
+            break
+        after = gen.count
+        # ---- request for the model (independent recomputation of what the components answer)
+        parts = []
+        psi_of = {}
+        for pid in order:
+            p = ps[pid]
+            vid = vid_of(evd, pid)
+            s = "%d %s %s %s %s" % (pid, opt(p.survival_weight), opt(p.interaction_weight), opt(p._forced_weight),
+                                    frs(theta_c))
+            for i in range(case["nant"]):
+                sols = paths[(vid, i)]
+                if sols is None:
+                    s += " N"
+                else:
+                    s += " S %d" % len(sols)
+                    for path in sols:
+                        psi = float(np.arccos(np.vdot(p.direction, path.emitted_direction)))
+                        psi_of[(pid, path.id)] = psi
+                        if abs(abs(psi - theta_c) - offmax) < 1e-9:
+                            raise AssertionError("generated viewing angle sits on the off-cone boundary")
+                        s += " %d %s %s %d" % (path.id, frs(path.tof), frs(psi),
+                                               0 if (pid, path.id) in ctx["refuse"] else 1)
+            parts.append(s)
+        req = "ev %d %s %s %s %s %d %d %d %d %d %s" % (
+            case["nant"], grid_s(case["times"]), wms, frs(offmax), ts_, 1 if writer else 0, seen, after, 7 + k,
+            len(parts), " ".join(parts))
+        # ---- what the implementation did, in the model's words
+        bad = []
+        allpaths = {path.id: path for sols in paths.values() if sols for path in sols}
+        segs = []
+        handed = []                          # every array of times handed to an antenna (object, snapshot)
+        for i, a in enumerate(ants):
+            out = []
+            for sig, direction, pol, snap in a.calls:
+                if isinstance(sig, EmptySignal) and direction is None and pol is None:
+                    if sig.value_type != EmptySignal.Type.field:
+                        bad.append("empty-signal-type")
+                    out.append("E " + grid_s(snap))
+                    handed.append((sig, snap))
+                elif isinstance(sig, list) and all(hasattr(x, "_tag") for x in sig):
+                    pid, pathid = sig[0]._tag
+                    path = allpaths[pathid]
+                    if not any(sig is o[0] and pol is o[1] for o in path.outs) \
+                            or direction is not path.received_direction:
+                        bad.append("receive-args")
+                    out.append("P %d %d %s" % (pid, pathid, grid_s(snap)))
+                    handed.append((sig[0], snap))
+                else:
+                    out.append("?")
+            segs.append("a %d" % len(out) + "".join(" " + o for o in out))
+        # aliasing: what was handed over must not change afterwards nor share mutable state
+        if any(not np.array_equal(s.times, snap) for s, snap in handed):
+            bad.append("signal-mutated-after-receive")
+        if len({id(s) for s, _ in handed}) != len(handed):
+            bad.append("same-signal-object-received-twice")
+        for x in range(len(handed)):
+            if np.shares_memory(handed[x][0].times, kern.signal_times) or any(
+                    np.shares_memory(handed[x][0].times, handed[y][0].times) for y in range(x)):
+                bad.append("received-signals-share-times")
+                break
+        if handed:
+            handed[0][0].times += 1000.0                 # mutate one received signal in place ...
+            if any(not np.array_equal(s.times, snap) for s, snap in handed[1:]) \
+                    or not np.array_equal(kern.signal_times, times):
+                bad.append("mutating-one-signal-changes-another")          # ... nothing else may move
+            handed[0][0].times -= 1000.0
+        if not np.array_equal(kern.signal_times, np.array(case["times"])):
+            bad.append("signal_times-changed")
+        # keyword arguments seen by the components
+        for ent in log:
+            if ent[0] == "tracer" and not ent[2]:
+                bad.append("tracer-ice")
+            if ent[0] == "signal":
+                _, p, pathid, va, ice_ok, tms = ent
+                if not ice_ok or tms is not kern.signal_times or va != psi_of[(p._pid, pathid)]:
+                    bad.append("signal-args")
+            if ent[0] == "propagate":
+                _, pid, pathid, sig, pol, interp = ent
+                exp = nu_pol(np, ps[pid].direction, allpaths[pathid].emitted_direction)
+                if not isinstance(sig, StubSignal) or interp != case["interp"] or not np.array_equal(pol, exp):
+                    bad.append("propagate-args")
 
-    def trig_txt(tr):
-        if tr is None:
-            return "none"
-        if isinstance(tr, dict):
-            return "d" + "".join(" %s=%d" % (k, bool(v)) for k, v in tr.items())
-        return "b%d" % bool(tr)
-    if isinstance(res, str):
-        ret = res
-        evid = 7
-    elif isinstance(res, tuple):
-        ret = "event,%d" % bool(res[1])
-        evid = res[0]._eid
-    else:
-        ret = "event"
-        evid = res._eid
-    if writer is None:
-        wtxt = "written 0"
-    elif not writer.calls:
-        wtxt = "written none"
-    else:
-        w = writer.calls[-1]
-        cand = {}
-        for (pid, i), sols in paths.items():
-            for path in sols or []:
-                cand[(pid, path.id)] = nu_pol(np, ps[pid].direction, path.emitted_direction)
+        def trig_txt(tr):
+            if tr is None:
+                return "none"
+            if isinstance(tr, dict):
+                return "d" + "".join(" %s=%d" % (kk, bool(v)) for kk, v in tr.items())
+            return "b%d" % bool(tr)
+        if isinstance(res, str):
+            ret = res
+            evid = 7 + k
+        elif isinstance(res, tuple):
+            ret = "event,%d" % bool(res[1])
+            evid = res[0]._eid
+        else:
+            ret = "event"
+            evid = res._eid
+        if writer is None:
+            wtxt = "written 0"
+        elif len(writer.calls) != k + 1:
+            wtxt = "written calls=%d" % len(writer.calls)
+        else:
+            w = writer.calls[-1]
+            cand = {}
+            for pid in set(order):
+                vid = vid_of(evd, pid)
+                for i in range(case["nant"]):
+                    for path in paths[(vid, i)] or []:
+                        cand[(pid, path.id)] = nu_pol(np, ps[pid].direction, path.emitted_direction)
 
-        def pol_id(v):
-            hits = [k for k, x in cand.items() if np.array_equal(x, v)]
-            return "%d:%d" % hits[0] if len(hits) == 1 else "?"
-        wtxt = "written 1 ev=%d thrown=%d trig=%s rp=%s pol=%s" % (
-            w["event"]._eid, w["events_thrown"], trig_txt(w["triggered"]),
-            ";".join(",".join(str(p.id) for p in l) for l in w["ray_paths"]),
-            ";".join(",".join(pol_id(v) for v in l) for l in w["polarizations"]))
-        if len(writer.calls) != 1:
-            bad.append("writer-calls=%d" % len(writer.calls))
-        for i, seg in enumerate(segs):
-            segs[i] = seg + " r %d" % len(w["ray_paths"][i]) + "".join(" %d" % p.id for p in w["ray_paths"][i]) \
-                + " q %d" % len(w["polarizations"][i]) + "".join(" " + pol_id(v) for v in w["polarizations"][i])
-    if kern._gen_count != after:
-        bad.append("gen-count-not-updated")
-    txt = "ev %d | ret %s | %s" % (evid, ret, wtxt) + "".join(" | " + s for s in segs)
-    if bad:
-        txt += " | BAD " + ",".join(sorted(set(bad)))
-    return req, txt
+            def pol_id(v):
+                hits = [kk for kk, x in cand.items() if np.array_equal(x, v)]
+                return "%d:%d" % hits[0] if len(hits) == 1 else "?"
+            wtxt = "written 1 ev=%d thrown=%d trig=%s rp=%s pol=%s" % (
+                w["event"]._eid, w["events_thrown"], trig_txt(w["triggered"]),
+                ";".join(",".join(str(p.id) for p in l) for l in w["ray_paths"]),
+                ";".join(",".join(pol_id(v) for v in l) for l in w["polarizations"]))
+            for i, seg in enumerate(segs):
+                segs[i] = seg + " r %d" % len(w["ray_paths"][i]) + "".join(" %d" % p.id for p in w["ray_paths"][i]) \
+                    + " q %d" % len(w["polarizations"][i]) + "".join(" " + pol_id(v) for v in w["polarizations"][i])
+            # the writer's lists are the kernel's own, not the tracers' solution lists, and distinct per antenna
+            raw = w["raw_paths"]
+            if len({id(l) for l in raw}) != len(raw) or any(l is s for l in raw for s in paths.values()):
+                bad.append("ray_paths-lists-aliased")
+            pol_arrays = [v for l in w["raw_pols"] for v in l]
+            if len({id(v) for v in pol_arrays}) != len(pol_arrays):
+                bad.append("polarization-arrays-aliased")
+            if k > 0 and (raw is writer.calls[k - 1]["raw_paths"] or any(
+                    l is m for l in raw for m in writer.calls[k - 1]["raw_paths"])):
+                bad.append("ray_paths-reused-across-events")
+        if kern._gen_count != after:
+            bad.append("gen-count-not-updated")
+        txt = "ev %d | ret %s | %s" % (evid, ret, wtxt) + "".join(" | " + s for s in segs)
+        if bad:
+            txt += " | BAD " + ",".join(sorted(set(bad)))
+        results.append((req, txt))
+    return results
 
 
 def model_view(reply, has_writer):
@@ -350,40 +419,60 @@ def model_view(reply, has_writer):
 
 
 # ---------------------------------------------------------------------------------------------
-def gen_stub_case(rng):
+def gen_stub_event(rng, nant, theta_c):
     np = _np()
-    nant = rng.randint(1, 3)
     npart = rng.randint(1, 4)
     wpool = [None, 1 / 16, 1 / 4, 1 / 2, 1.0]
+    nvid = rng.randint(1, max(1, npart - 1))          # fewer vertices than particles: shared vertices
     particles = []
     for k in range(npart):
-        d = rng.choice([(0.0, 0.0, 1.0), (1.0, 0.0, 0.0), (0.0, 0.0, -1.0)])
-        particles.append({"id": k + 1, "sw": rng.choice(wpool), "iw": rng.choice(wpool),
-                          "forced": rng.choice([None, None, None, 1 / 8, 1.0]), "dir": d,
-                          "parent": None if k == 0 or rng.random() < 0.6 else rng.randint(1, k)})
-    theta_c = float(np.arccos(1 / 1.5))
+        b = rng.choice([(0.0, 0.0, 1.0), (1.0, 0.0, 0.0), (0.0, 0.0, -1.0)])
+        d = tuple(x + 0.013 * (k + 1) * y for x, y in zip(b, (0.3, 0.5, 0.2)))     # all directions distinct
+        particles.append({"id": k + 1, "vid": rng.randint(1, nvid), "sw": rng.choice(wpool), "iw": rng.choice(wpool),
+                          "forced": rng.choice([None, None, None, 1 / 8, 1.0]), "dir": d, "base": b,
+                          "parent": None if k == 0 or rng.random() < 0.6 else rng.randint(1, k), "dup_of": None})
+    if rng.random() < 0.3:                             # the same Particle object once more, as a root
+        src = rng.choice(particles)
+        particles.append(dict(src, parent=None, dup_of=src["id"]))
     table = {}
     nid = 0
+    first_dir = {}
     for pe in particles:
+        first_dir.setdefault(pe["vid"], pe["base"])
+    for vid in range(1, nvid + 1):
+        d0 = first_dir.get(vid, (0.0, 0.0, 1.0))
         for i in range(nant):
-            r = rng.random()
-            if r < 0.2:
-                table[(pe["id"], i)] = None
+            if rng.random() < 0.15:
+                table[(vid, i)] = None
                 continue
             ents = []
-            for _ in range(rng.choice([0, 1, 1, 2, 2, 3])):
+            for _ in range(rng.choice([0, 1, 2, 2, 3, 3])):
                 nid += 1
                 delta = rng.choice([0, 2, -2, 4, 10, -10, 30, -30, 100]) * DEG
                 psi = theta_c + delta
                 phi = 0.1 + 0.37 * nid
-                if pe["dir"][0] == 1.0:
+                if d0[0] == 1.0:
                     e = (np.cos(psi), np.sin(psi) * np.cos(phi), np.sin(psi) * np.sin(phi))
                 else:
-                    s = pe["dir"][2]
-                    e = (np.sin(psi) * np.cos(phi), np.sin(psi) * np.sin(phi), s * np.cos(psi))
-                ents.append({"id": nid, "tof": rng.randint(1, 400) / 8.0, "e": tuple(float(x) for x in e),
-                             "ok": rng.random() < 0.8})
-            table[(pe["id"], i)] = ents
+                    e = (np.sin(psi) * np.cos(phi), np.sin(psi) * np.sin(phi), d0[2] * np.cos(psi))
+                ents.append({"id": nid, "tof": rng.randint(1, 400) / 8.0, "e": tuple(float(x) for x in e)})
+            table[(vid, i)] = ents
+    # the signal model refuses some (particle, path) pairs - some, not all, of an antenna's solutions
+    refuse = sorted({(pe["id"], e["id"]) for pe in particles if pe["dup_of"] is None for i in range(nant)
+                     for e in (table[(pe["vid"], i)] or []) if rng.random() < 0.25})
+    return {"particles": particles, "table": table, "refuse": refuse, "extra_throws": rng.choice([0, 0, 1, 5])}
+
+
+def gen_stub_case(rng):
+    np = _np()
+    nant = rng.randint(1, 3)
+    theta_c = float(np.arccos(1 / 1.5))
+    events = [gen_stub_event(rng, nant, theta_c)]
+    for _ in range(rng.choice([0, 1, 1, 2])):          # the kernel object is reused for further events
+        if rng.random() < 0.25:
+            events.append({"same_as": 0, "extra_throws": rng.choice([0, 2])})
+        else:
+            events.append(gen_stub_event(rng, nant, theta_c))
     tk = rng.choice(["N", "F", "D", "D"])
     spec = lambda: rng.choice([("G", rng.randrange(nant), rng.randint(0, 3)), ("U", rng.randrange(nant))])
     if tk == "N":
@@ -396,26 +485,42 @@ def gen_stub_case(rng):
         trig = ("D", [(k, spec()) for k in keys])
     n = rng.randint(2, 5)
     t0 = rng.randint(-8, 8) / 4.0
-    return {"nant": nant, "particles": particles, "table": table,
-            "times": [t0 + 0.25 * j for j in range(n)],
+    return {"nant": nant, "events": events, "times": [t0 + 0.25 * j for j in range(n)],
             "wmin": rng.choice([None, 0.1, 0.25, 0.5, (0.5, 0.5), (0.25, 0.75)]),
             "offcone": rng.choice([None, 5, 20]), "interp": rng.choice([None, 0.1]),
-            "trig": trig, "writer": rng.random() < 0.7, "extra_throws": rng.choice([0, 0, 1, 5])}
+            "trig": trig, "writer": rng.random() < 0.7}
+
+
+def event_def(case, k):
+    evd = case["events"][k]
+    return case["events"][evd["same_as"]] if evd.get("same_as") is not None else evd
 
 
 def stub_nontrivial(case):
-    return any(v for v in case["table"].values())
+    return any(v for evd in case["events"] if "table" in evd for v in evd["table"].values())
 
 
 def case_json(case):
     c = dict(case)
-    c["table"] = [[list(k), v] for k, v in case["table"].items()]
+    c["events"] = [dict(e, table=[[list(k), v] for k, v in e["table"].items()]) if "table" in e else dict(e)
+                   for e in case["events"]]
     return c
 
 
 def case_from_json(c):
     c = dict(c)
-    c["table"] = {tuple(k): v for k, v in c["table"]}
+    evs = []
+    for e in c["events"]:
+        e = dict(e)
+        if "table" in e:
+            e["table"] = {tuple(k): v for k, v in e["table"]}
+            e["refuse"] = [tuple(x) for x in e["refuse"]]
+            e["particles"] = [dict(pe, dir=tuple(pe["dir"]), base=tuple(pe["base"])) for pe in e["particles"]]
+            for ents in e["table"].values():
+                for ent in ents or []:
+                    ent["e"] = tuple(ent["e"])
+        evs.append(e)
+    c["events"] = evs
     if isinstance(c["wmin"], list):
         c["wmin"] = tuple(c["wmin"])
     tr = c["trig"]
@@ -425,8 +530,6 @@ def case_from_json(c):
         c["trig"] = ("D", [(k, tuple(s)) for k, s in tr[1]])
     else:
         c["trig"] = ("N",)
-    for pe in c["particles"]:
-        pe["dir"] = tuple(pe["dir"])
     return c
 
 
@@ -457,18 +560,23 @@ class RealSetup:
         shutil.rmtree(self.tmp, ignore_errors=True)
 
     def list_events(self, rng):
+        """multi-particle events: particles of one interaction share a vertex, and one Particle object
+        may appear twice in an event"""
         import pyrex
         evs = []
         for k in range(2):
+            verts = [(rng.uniform(40, 160), rng.uniform(-60, 60), rng.choice([-300.0, -450.0, -900.0]))
+                     for _ in range(2)]
             ps = []
             for j in range(3):
-                p = pyrex.Particle("nu_e", vertex=(rng.uniform(40, 160), rng.uniform(-60, 60),
-                                                   rng.choice([-300.0, -450.0, -900.0])),
+                p = pyrex.Particle("nu_e", vertex=verts[0] if j < 2 else verts[1],
                                    direction=(rng.uniform(-1, 1), rng.uniform(-1, 1), rng.uniform(-1, 0.2)),
-                                   energy=10 ** rng.uniform(8, 10), interaction_type="cc")
+                                   energy=10 ** rng.uniform(8, 8.7), interaction_type="cc")
                 p.survival_weight = rng.choice([1.0, 0.6, 0.05])
                 p.interaction_weight = rng.choice([1.0, 0.7, 0.3])
                 ps.append(p)
+            if rng.random() < 0.5:
+                ps.append(ps[rng.randrange(3)])
             evs.append(pyrex.Event(ps))
         return evs
 
@@ -490,7 +598,7 @@ class RealSetup:
         return FileGenerator(self.file)
 
 
-K6_INPUTS = [((158.56017434364142, 0.9163620220348817, -25.211072081587826), (15, 5, -160)),
+K11_INPUTS = [((158.56017434364142, 0.9163620220348817, -25.211072081587826), (15, 5, -160)),
              ((-84.92308110016519, -7.7300708196662224, -14.974580780211813), (0, 0, -100)),
              ((-11.920061056863835, -89.97944697172835, -25.462571760239374), (15, 5, -160))]
 
@@ -512,7 +620,7 @@ def known_probes(run):
     from pyrex.askaryan import ZHSAskaryanSignal
     logging.disable(logging.CRITICAL)
     try:
-        for vertex, pos in K6_INPUTS:
+        for vertex, pos in K11_INPUTS:
             p = pyrex.Particle("nu_e", vertex=vertex, direction=(0.3, 0.1, -0.5), energy=1e9, interaction_type="cc")
             kern = EventKernel(ListGenerator([pyrex.Event(p)]), [pyrex.Antenna(pos, noisy=False)],
                                ice_model=AntarcticIce(), ray_tracer=BasicRayTracer, signal_model=ZHSAskaryanSignal,
@@ -540,8 +648,9 @@ def all_combos():
     return COMBOS
 
 
-def run_real(setup, combo, rng):
-    """-> (request, implementation text, number of received signals) ; raises on crashes"""
+def run_real(setup, combo, rng, nev=2):
+    """one real kernel, `nev` consecutive event() calls (antennas cleared in between, as a detector is).
+    -> list of (request, observation dict) ; raises on crashes"""
     np = _np()
     import pyrex
     from pyrex.kernel import EventKernel
@@ -549,6 +658,8 @@ def run_real(setup, combo, rng):
     tname, sname, gname, offc, wmin, interp, has_writer, tkind = combo
     tracer, ice = setup.tracers[tname]
     sm = setup.signals[sname]
+    if gname == "list" and offc is None:
+        nev = 1          # many on-cone pulses: Antenna.receive deep-copies the propagated FunctionSignals (slow)
 
     class RecAntenna(pyrex.Antenna):
         def __init__(self, pos):
@@ -556,7 +667,8 @@ def run_real(setup, combo, rng):
             self.calls = []
 
         def receive(self, signal, direction=None, polarization=None, force_real=False):
-            self.calls.append((signal, direction, polarization))
+            first = signal[0] if isinstance(signal, (list, tuple)) else signal
+            self.calls.append((signal, direction, polarization, np.array(first.times)))
             super().receive(signal, direction=direction, polarization=polarization, force_real=force_real)
 
     class Writer:
@@ -568,7 +680,8 @@ def run_real(setup, combo, rng):
 
         def add(self, event, triggered=None, ray_paths=None, polarizations=None, events_thrown=1):
             self.calls.append(dict(event=event, triggered=triggered, ray_paths=[list(x) for x in ray_paths],
-                                   polarizations=[list(x) for x in polarizations], events_thrown=events_thrown))
+                                   polarizations=[list(x) for x in polarizations], events_thrown=events_thrown,
+                                   raw_paths=ray_paths))
 
         def create_analysis_metadataset(self, *a, **k):
             pass
@@ -585,63 +698,107 @@ def run_real(setup, combo, rng):
     kern = EventKernel(gen, ants, ice_model=ice, ray_tracer=tracer, signal_model=sm, signal_times=setup.times,
                        event_writer=writer, triggers=triggers, offcone_max=offc, weight_min=wmin,
                        attenuation_interpolation=interp)
-    if gname in ("cyl", "rect"):
-        gen.count += rng.choice([0, 3])          # throws rejected before this call
-    seen = kern._gen_count
-    res = kern.event()
-    after = gen.count
-    ev = res[0] if isinstance(res, tuple) else res
-    # ---- independent recomputation of the component answers
+    times0 = np.array(setup.times)
     offmax = float(np.radians(180 if offc is None else offc))
-    parts, psi_of, sol_of = [], {}, {}
-    particles = list(ev)
-    for k, p in enumerate(particles):
-        pid = k + 1
-        theta_c = float(np.arccos(1 / ice.index(p.vertex[2])))
-        s = "%d %s %s %s %s" % (pid, opt(p.survival_weight), opt(p.interaction_weight), opt(p._forced_weight),
-                                frs(theta_c))
-        for i, a in enumerate(ants):
-            rt = tracer(p.vertex, a.position, ice_model=ice)
-            if not rt.exists:
-                s += " N"
-                continue
-            sols = list(rt.solutions)
-            s += " S %d" % len(sols)
-            for j, path in enumerate(sols):
-                pathid = 1000 * pid + 100 * i + j
-                psi = float(np.arccos(np.vdot(p.direction, path.emitted_direction)))
-                ok = True
-                if abs(psi - theta_c) <= offmax:
-                    try:
-                        sm(times=setup.times, particle=p, viewing_angle=psi, viewing_distance=path.path_length,
-                           ice_model=ice)
-                    except ValueError:
-                        ok = False
-                sol_of[pathid] = (pid, i, path)
-                s += " %d %s %s %d" % (pathid, frs(path.tof), frs(psi), ok)
-        parts.append(s)
     wms = "S 0" if wmin is None else ("P %s %s" % (frs(wmin[0]), frs(wmin[1])) if isinstance(wmin, tuple)
                                       else "S " + frs(wmin))
     ts_ = {"N": "N", "F": "F G 0 1", "D": "D 2 two G 1 1 global G 0 1"}[tkind]
-    req = "ev 3 %s %s %s %s %d %d %d %d %d %s" % (grid_s(setup.times), wms, frs(offmax), ts_, 1 if has_writer else 0,
-                                                  seen, after, 7, len(parts), " ".join(parts))
-    # ---- implementation in the model's words
-    def path_id(path, i):
-        hits = [k for k, (pid, ai, q) in sol_of.items() if ai == i and fw.close(q.tof, path.tof, 1e-12, 0)
-                and fw.close(q.path_length, path.path_length, 1e-12, 0)
-                and np.allclose(q.emitted_direction, path.emitted_direction, rtol=1e-12, atol=1e-15)]
-        return hits[0] if len(hits) == 1 else -1
-    recv = []
-    for i, a in enumerate(ants):
-        out = []
-        for sig, direction, pol in a.calls:
-            if isinstance(sig, EmptySignal) and direction is None:
-                out.append(("E", None, list(sig.times)))
+    out = []
+    for k in range(nev):
+        for a in ants:
+            a.clear()
+            a.calls = []
+        if gname in ("cyl", "rect"):
+            gen.count += rng.choice([0, 3])          # throws rejected before this call
+        seen = kern._gen_count
+        res = kern.event()
+        after = gen.count
+        ev = res[0] if isinstance(res, tuple) else res
+        # ---- independent recomputation of the component answers
+        parts, sol_of = [], {}
+        particles = list(ev)
+        for kk, p in enumerate(particles):
+            pid = kk + 1
+            theta_c = float(np.arccos(1 / ice.index(p.vertex[2])))
+            s = "%d %s %s %s %s" % (pid, opt(p.survival_weight), opt(p.interaction_weight), opt(p._forced_weight),
+                                    frs(theta_c))
+            for i, a in enumerate(ants):
+                rt = tracer(p.vertex, a.position, ice_model=ice)
+                if not rt.exists:
+                    s += " N"
+                    continue
+                sols = list(rt.solutions)
+                s += " S %d" % len(sols)
+                for j, path in enumerate(sols):
+                    pathid = 1000 * pid + 100 * i + j
+                    psi = float(np.arccos(np.vdot(p.direction, path.emitted_direction)))
+                    ok = True
+                    if abs(psi - theta_c) <= offmax:
+                        try:
+                            sm(times=setup.times, particle=p, viewing_angle=psi, viewing_distance=path.path_length,
+                               ice_model=ice)
+                        except ValueError:
+                            ok = False
+                    sol_of[pathid] = (pid, i, path)
+                    s += " %d %s %s %d" % (pathid, frs(path.tof), frs(psi), ok)
+            parts.append(s)
+        req = "ev 3 %s %s %s %s %d %d %d %d %d %s" % (grid_s(setup.times), wms, frs(offmax), ts_,
+                                                      1 if has_writer else 0, seen, after, 7, len(parts),
+                                                      " ".join(parts))
+        # ---- implementation, snapshotted now (the kernel and the antennas go on to the next event)
+        recv, alias = [], []
+        handed = []
+        for i, a in enumerate(ants):
+            o = []
+            for sig, direction, pol, snap in a.calls:
+                if isinstance(sig, EmptySignal) and direction is None:
+                    o.append(("E", None, list(snap)))
+                    handed.append((sig, snap))
+                else:
+                    o.append(("P", (direction, pol), list(snap)))
+                    handed.append((sig[0], snap))
+            recv.append(o)
+        stored = [[np.array(s.times) for s in a.signals] for a in ants]
+        objs = [s for a in ants for s in a.signals]
+        if any(not np.array_equal(s.times, snap) for s, snap in handed):
+            alias.append("a signal handed to an antenna was changed afterwards")
+        if len({id(s) for s, _ in handed}) != len(handed):
+            alias.append("the same signal object was handed to antennas twice")
+        arrays = [s.times for s in objs] + [s.times for s, _ in handed]
+        for x in range(len(arrays)):
+            if np.shares_memory(arrays[x], kern.signal_times) or any(
+                    arrays[x] is not arrays[y] and np.shares_memory(arrays[x], arrays[y]) for y in range(x)):
+                alias.append("signals share their times array")
+                break
+        if objs:
+            objs[0].times += 1.0                       # mutate one stored signal in place ...
+            flat = [t for st in stored for t in st]
+            if any(not np.array_equal(s.times, t) for s, t in list(zip(objs, flat))[1:]) \
+                    or any(not np.array_equal(s.times, snap) for s, snap in handed):
+                alias.append("mutating one received signal changes another")          # ... nothing else may move
+            objs[0].times -= 1.0
+        if not np.array_equal(kern.signal_times, times0):
+            alias.append("signal_times changed")
+        wcall = None
+        if writer is not None:
+            if len(writer.calls) != k + 1:
+                alias.append("writer called %d times after %d events" % (len(writer.calls), k + 1))
             else:
-                out.append(("P", (direction, pol), list(sig[0].times)))
-        recv.append(out)
-    return req, dict(res=res, ev=ev, particles=particles, recv=recv, writer=writer, ants=ants, sol_of=sol_of,
-                     path_id=path_id, seen=seen, after=after, f1=f1, f2=f2, tkind=tkind, kern=kern)
+                wcall = writer.calls[k]
+                raw = wcall["raw_paths"]
+                if len({id(l) for l in raw}) != len(raw) or (k > 0 and any(
+                        l is m for l in raw for m in writer.calls[k - 1]["raw_paths"])):
+                    alias.append("ray_paths lists are shared")
+        out.append((req, dict(res=res, ev=ev, particles=particles, recv=recv, has_writer=writer is not None,
+                              wcall=wcall, nsig=[len(a.signals) for a in ants], stored=stored, sol_of=sol_of,
+                              seen=seen, after=after, e1=f1(ants), e2=f2(ants), tkind=tkind,
+                              gen_ok=kern._gen_count == after, alias=alias, index=k)))
+    return out
+
+
+def same_path(np, p, q):
+    return (fw.close(q.tof, p.tof, 1e-12, 0) and fw.close(q.path_length, p.path_length, 1e-12, 0)
+            and np.allclose(q.emitted_direction, p.emitted_direction, rtol=1e-12, atol=1e-15))
 
 
 def compare_real(reply, obs, setup):
@@ -650,14 +807,17 @@ def compare_real(reply, obs, setup):
     segs = reply.split(" | ")
     if len(segs) != 4 + 3:
         return "model reply malformed: %s" % reply[:200]
-    ants = obs["ants"]
-    writer = obs["writer"]
+    if obs["alias"]:
+        return "shared mutable state: " + "; ".join(obs["alias"])
+    w = obs["wcall"]
+    if obs["has_writer"] and w is None:
+        return "writer was not called once per event"
     for i in range(3):
         toks = segs[4 + i].split()
         n = int(toks[1])
         pos = 2
         got = obs["recv"][i]
-        if n != len(got) or n != len(ants[i].signals):
+        if n != len(got) or n != obs["nsig"][i]:
             return "antenna %d: model predicts %d signals, kernel delivered %d" % (i, n, len(got))
         ids = []
         for j in range(n):
@@ -676,7 +836,7 @@ def compare_real(reply, obs, setup):
                 return "antenna %d signal %d: model %s, kernel %s" % (i, j, kind, got[j][0])
             if len(grid) != len(got[j][2]) or not all(fw.close(float(a), b, 1e-12, 1e-18) for a, b in zip(grid, got[j][2])):
                 return "antenna %d signal %d: grid is not signal_times + tof" % (i, j)
-            if not np.allclose(ants[i].signals[j].times, got[j][2], rtol=1e-12, atol=0):
+            if not np.allclose(obs["stored"][i][j], got[j][2], rtol=1e-12, atol=0):
                 return "antenna %d signal %d: stored signal not on the received grid" % (i, j)
         assert toks[pos] == "r"
         nr = int(toks[pos + 1])
@@ -684,11 +844,12 @@ def compare_real(reply, obs, setup):
         pos += 2 + nr
         nq = int(toks[pos + 1])
         qids = toks[pos + 2:pos + 2 + nq]
-        if writer is not None:
-            w = writer.calls[-1]
-            got_r = [obs["path_id"](p, i) for p in w["ray_paths"][i]]
-            if got_r != rids:
-                return "antenna %d: ray_paths %s, model %s" % (i, got_r, rids)
+        if w is not None:
+            if len(w["ray_paths"][i]) != nr:
+                return "antenna %d: writer got %d ray paths, model (and signals) %d" % (i, len(w["ray_paths"][i]), nr)
+            for p, rid in zip(w["ray_paths"][i], rids):
+                if not same_path(np, p, obs["sol_of"][rid][2]):
+                    return "antenna %d: ray_paths entry is not the path of the signal at that position (%d)" % (i, rid)
             if len(w["polarizations"][i]) != nq:
                 return "antenna %d: %d polarizations for %d paths" % (i, len(w["polarizations"][i]), nq)
             for v, q in zip(w["polarizations"][i], qids):
@@ -697,42 +858,37 @@ def compare_real(reply, obs, setup):
                 exp = nu_pol(np, p.direction, obs["sol_of"][pathid][2].emitted_direction)
                 if not np.allclose(v, exp, rtol=1e-9, atol=1e-12):
                     return "antenna %d: polarization does not belong to path %d" % (i, pathid)
-            # pulses were received with the path's direction
-            for j, pathid in enumerate(ids):
-                if pathid is not None:
-                    d = obs["recv"][i][j][1][0]
-                    if not np.allclose(d, obs["sol_of"][pathid][2].received_direction, rtol=1e-9, atol=1e-12):
-                        return "antenna %d signal %d: received with another path's direction" % (i, j)
+        # pulses were received with the path's direction
+        for j, pathid in enumerate(ids):
+            if pathid is not None:
+                d = obs["recv"][i][j][1][0]
+                if not np.allclose(d, obs["sol_of"][pathid][2].received_direction, rtol=1e-9, atol=1e-12):
+                    return "antenna %d signal %d: received with another path's direction" % (i, j)
     # writer plumbing
     wseg = segs[3]
-    if writer is None:
+    if w is None:
         if wseg != "written 0":
             return "model expects a writer call"
     else:
-        if len(writer.calls) != 1:
-            return "writer called %d times" % len(writer.calls)
-        w = writer.calls[0]
         thrown = int(wseg.split("thrown=")[1].split()[0])
         if w["event"] is not obs["ev"] or w["events_thrown"] != thrown or thrown != obs["after"] - obs["seen"]:
             return "writer event/events_thrown wrong: %s vs model %d" % (w["events_thrown"], thrown)
     # trigger plumbing: evaluated on the antennas after reception
     res, tk = obs["res"], obs["tkind"]
-    e1, e2 = obs["f1"](ants), obs["f2"](ants)
+    e1, e2 = obs["e1"], obs["e2"]
     if tk == "N":
-        ok = not isinstance(res, tuple) and (writer is None or writer.calls[0]["triggered"] is None)
+        ok = not isinstance(res, tuple) and (w is None or w["triggered"] is None)
     elif tk == "F":
-        ok = isinstance(res, tuple) and res[1] == e1 and (writer is None or writer.calls[0]["triggered"] == e1)
+        ok = isinstance(res, tuple) and res[1] == e1 and (w is None or w["triggered"] == e1)
     else:
-        ok = isinstance(res, tuple) and res[1] == e1 and (
-            writer is None or writer.calls[0]["triggered"] == {"two": e2, "global": e1})
+        ok = isinstance(res, tuple) and res[1] == e1 and (w is None or w["triggered"] == {"two": e2, "global": e1})
     if not ok:
         return "trigger result is not the supplied function(s) evaluated on the antennas"
-    # the model's own trigger evaluation (on received counts) must agree with the functions
     mt = segs[2]
     exp = {"N": "trig none", "F": "trig b%d" % e1, "D": "trig d two=%d global=%d" % (e2, e1)}[tk]
     if mt != exp:
         return "model trigger `%s` vs implementation `%s`" % (mt, exp)
-    if obs["kern"]._gen_count != obs["after"]:
+    if not obs["gen_ok"]:
         return "_gen_count not updated"
     return None
 
@@ -743,34 +899,45 @@ def correspondence(run):
     logging.getLogger("pyrex").setLevel(logging.CRITICAL)      # the tracers log an error before raising (K11)
     ok = True
     # ---- stubs (exact)
-    cases = [gen_stub_case(run.rng) for _ in range(run.scale(300, 5000))]
+    cases = [gen_stub_case(run.rng) for _ in range(run.scale(220, 2500))]
     reqs, imps, keep = [], [], []
     for c in cases:
-        req, txt = run_stub(c)
-        if req is None:
-            ok = False
-            run.note_broken("correspondence: stub event crashed in the kernel: %s ; case %s" % (txt, str(case_json(c))[:400]))
-            if len(run.broken) > 4:
-                break
-            continue
-        reqs.append(req)
-        imps.append(txt)
-        keep.append(c)
+        try:
+            results = run_stub(c)
+        except AssertionError:
+            continue                      # a generated viewing angle sat on the off-cone boundary
+        for k, (req, txt) in enumerate(results):
+            if req is None:
+                ok = False
+                run.note_broken("correspondence: stub event %d crashed in the kernel: %s ; case %s"
+                                % (k, txt, str(case_json(c))[:400]))
+                continue
+            reqs.append(req)
+            imps.append(txt)
+            keep.append((c, k))
+        if len(run.broken) > 4:
+            break
     replies = fw.run_driver("C10", reqs) if reqs else []
-    for c, rq, imp, rp in zip(keep, reqs, imps, replies):
+    for (c, k), rq, imp, rp in zip(keep, reqs, imps, replies):
         view = model_view(rp, c["writer"]) if rp != "bad-op" else rp
+        evd = event_def(c, k)
         run.case(("stub", rq), nontrivial=stub_nontrivial(c), sample={"request": rq[:300], "model": rp[:300]})
         run.count("stub_trig_" + c["trig"][0])
         run.count("stub_writer_%d" % c["writer"])
         run.count("stub_wmin_%s" % ("none" if c["wmin"] is None else "pair" if isinstance(c["wmin"], tuple) else "scalar"))
         run.count("stub_recv_empty", imp.count(" E "))
         run.count("stub_recv_pulse", imp.count(" P "))
+        run.count("stub_event_index_%d" % k)
+        vids = [pe["vid"] for pe in evd["particles"] if pe["dup_of"] is None]
+        run.count("stub_events_with_shared_vertex", int(len(set(vids)) < len(vids)))
+        run.count("stub_events_with_repeated_particle_object", int(any(pe["dup_of"] is not None for pe in evd["particles"])))
+        run.count("stub_antennas_with_2plus_empty", sum(1 for seg in imp.split(" | ")[3:] if seg.count(" E ") >= 2))
         if view == imp:
             run.traces += 1
         else:
             ok = False
-            run.note_broken("correspondence: stub request `%s` model `%s` implementation `%s`"
-                            % (rq[:500], view[:400], imp[:400]))
+            run.note_broken("correspondence: stub request (event %d of its kernel) `%s` model `%s` implementation `%s`"
+                            % (k, rq[:500], view[:400], imp[:400]))
             if len(run.broken) > 5:
                 break
     # ---- the real kernel
@@ -778,7 +945,7 @@ def correspondence(run):
     if run.thorough():
         chosen = list(combos)
     else:
-        chosen = run.rng.sample(combos, 140)
+        chosen = run.rng.sample(combos, 80)
         # every tracer x signal x generator at least once
         base = [(t, s, g) for t in ("spec", "basic", "uni", "lay") for s in ("ARZ", "AVZ", "ZHS")
                 for g in ("cyl", "rect", "list", "file")]
@@ -791,10 +958,11 @@ def correspondence(run):
         reqs, obss, cs = [], [], []
         for combo in chosen:
             try:
-                req, obs = run_real(setup, combo, run.rng)
+                nev = 2 if (not run.thorough() or run.rng.random() < 0.1) else 1
+                pairs = run_real(setup, combo, run.rng, nev)
             except Exception as e:
                 if is_k6(combo, e):
-                    run.count("real_skipped_known_K6")
+                    run.count("real_skipped_known_K11")
                     run.known_finding("K11")
                     continue
                 ok = False
@@ -802,22 +970,29 @@ def correspondence(run):
                 if len(run.broken) > 5:
                     break
                 continue
-            reqs.append(req)
-            obss.append(obs)
-            cs.append(combo)
+            for req, obs in pairs:
+                reqs.append(req)
+                obss.append(obs)
+                cs.append(combo)
         replies = fw.run_driver("C10", reqs) if reqs else []
         for combo, rq, obs, rp in zip(cs, reqs, obss, replies):
             nrecv = sum(len(r) for r in obs["recv"])
-            run.case(("real", combo, rq[-200:]), nontrivial=nrecv > 0, sample={"combo": combo, "model": rp[:200]})
+            run.case(("real", combo, obs["index"], rq[-200:]), nontrivial=nrecv > 0,
+                     sample={"combo": combo, "model": rp[:200]})
             run.count("real_%s" % combo[0])
             run.count("real_signals_received", nrecv)
             run.count("real_pulses", sum(1 for r in obs["recv"] for x in r if x[0] == "P"))
+            run.count("real_antennas_with_2plus_empty", sum(1 for r in obs["recv"] if sum(x[0] == "E" for x in r) >= 2))
+            verts = [tuple(p.vertex) for p in obs["particles"]]
+            run.count("real_events_with_shared_vertex", int(len(set(verts)) < len(verts)))
+            run.count("real_events_with_repeated_particle_object",
+                      int(len({id(p) for p in obs["particles"]}) < len(obs["particles"])))
             why = compare_real(rp, obs, setup) if rp != "bad-op" else "model rejected the request"
             if why is None:
                 run.traces += 1
             else:
                 ok = False
-                run.note_broken("correspondence: real kernel %s: %s" % (combo, why))
+                run.note_broken("correspondence: real kernel %s event %d: %s" % (combo, obs["index"], why))
                 if len(run.broken) > 5:
                     break
     finally:
@@ -828,44 +1003,50 @@ def correspondence(run):
 # =============================================================================================
 # search: property-level oracle on the implementation alone
 def stub_oracle(case):
-    """counts / alignment / emptiness / weights / triggers / writer args straight from the property"""
+    """counts / alignment / emptiness / weights / writer args straight from the property, for every
+    event() call of the case (one kernel object)"""
     np = _np()
-    req, txt = run_stub(case)
-    if req is None:
-        return txt
-    if " | BAD " in txt:
-        return "components were handed wrong arguments: " + txt.split(" | BAD ")[1]
-    segs = txt.split(" | ")
-    ev, ps, order = build_particles(case)
+    results = run_stub(case)
     wm = case["wmin"]
-
-    def passes(p):
-        if isinstance(wm, tuple):
-            return not ((p.survival_weight is not None and p.survival_weight < wm[0])
-                        or (p.interaction_weight is not None and p.interaction_weight < wm[1]))
-        return not (p.weight < (0 if wm is None else wm))
     theta_c = float(np.arccos(1 / 1.5))
     offmax = float(np.radians(180 if case["offcone"] is None else case["offcone"]))
-    for i in range(case["nant"]):
-        exp = []
-        for pid in order:
-            if not passes(ps[pid]):
-                continue
-            for e in case["table"][(pid, i)] or []:
-                psi = float(np.arccos(np.vdot(ps[pid].direction, np.array(e["e"]))))
-                empty = abs(psi - theta_c) > offmax or not e["ok"]
-                grid = grid_s([t + e["tof"] for t in case["times"]])
-                exp.append(("E " + grid) if empty else ("P %d %d %s" % (pid, e["id"], grid)))
-        seg = segs[3 + i]
-        want = "a %d" % len(exp) + "".join(" " + x for x in exp)
-        if case["writer"]:
-            ids = [e["id"] for pid in order if passes(ps[pid]) for e in (case["table"][(pid, i)] or [])]
-            pq = ["%d:%d" % (pid, e["id"]) for pid in order if passes(ps[pid]) for e in (case["table"][(pid, i)] or [])]
-            want += " r %d" % len(ids) + "".join(" %d" % x for x in ids) + " q %d" % len(pq) + "".join(" " + x for x in pq)
-        if seg != want:
-            return "antenna %d: expected `%s` got `%s`" % (i, want[:200], seg[:200])
-    if case["writer"] and "thrown=%d" % (1 + case["extra_throws"]) not in segs[2]:
-        return "events_thrown is not the advance of the generator counter: " + segs[2][:80]
+    for k, (req, txt) in enumerate(results):
+        if req is None:
+            return "event %d: %s" % (k, txt)
+        if " | BAD " in txt:
+            return "event %d: shared state / wrong arguments: %s" % (k, txt.split(" | BAD ")[1])
+        segs = txt.split(" | ")
+        evd = event_def(case, k)
+        ev, ps, order = build_event(evd)
+        refuse = {tuple(x) for x in evd["refuse"]}
+
+        def passes(p):
+            if isinstance(wm, tuple):
+                return not ((p.survival_weight is not None and p.survival_weight < wm[0])
+                            or (p.interaction_weight is not None and p.interaction_weight < wm[1]))
+            return not (p.weight < (0 if wm is None else wm))
+        for i in range(case["nant"]):
+            exp, ids, pq = [], [], []
+            for pid in order:
+                if not passes(ps[pid]):
+                    continue
+                for e in evd["table"][(vid_of(evd, pid), i)] or []:
+                    psi = float(np.arccos(np.vdot(ps[pid].direction, np.array(e["e"]))))
+                    empty = abs(psi - theta_c) > offmax or (pid, e["id"]) in refuse
+                    grid = grid_s([t + e["tof"] for t in case["times"]])
+                    exp.append(("E " + grid) if empty else ("P %d %d %s" % (pid, e["id"], grid)))
+                    ids.append(e["id"])
+                    pq.append("%d:%d" % (pid, e["id"]))
+            want = "a %d" % len(exp) + "".join(" " + x for x in exp)
+            if case["writer"]:
+                want += " r %d" % len(ids) + "".join(" %d" % x for x in ids) + " q %d" % len(pq) \
+                    + "".join(" " + x for x in pq)
+            if segs[3 + i] != want:
+                return "event %d antenna %d: expected `%s` got `%s`" % (k, i, want[:200], segs[3 + i][:200])
+        if case["writer"] and "thrown=%d " % (1 + case["events"][k]["extra_throws"]) not in segs[2]:
+            return "event %d: events_thrown is not the advance of the generator counter: %s" % (k, segs[2][:80])
+    if len(results) != len(case["events"]):
+        return "kernel stopped after %d of %d events" % (len(results), len(case["events"]))
     return None
 
 
@@ -886,7 +1067,7 @@ def search(run, deep):
     setup = RealSetup(run.seed)
     try:
         combos = all_combos()
-        chosen = run.rng.sample(combos, 48 if not deep else 400)   # the correspondence run enumerates the product
+        chosen = run.rng.sample(combos, 20 if not deep else 150)   # the correspondence run enumerates the product
         for combo in chosen:
             why = real_oracle(setup, combo, run.rng)
             run.case(("real-oracle", combo, run.rng.random()))
@@ -903,7 +1084,7 @@ def search(run, deep):
 def real_oracle(setup, combo, rng):
     np = _np()
     try:
-        req, obs = run_real(setup, combo, rng)
+        pairs = run_real(setup, combo, rng)
     except Exception as e:
         if is_k6(combo, e):
             return "K11"
@@ -911,31 +1092,39 @@ def real_oracle(setup, combo, rng):
     wmin = combo[4]
     ice = setup.tracers[combo[0]][1]
     tracer = setup.tracers[combo[0]][0]
-    for i, a in enumerate(obs["ants"]):
-        exp = []
-        for p in obs["particles"]:
-            if isinstance(wmin, tuple):
-                if (p.survival_weight is not None and p.survival_weight < wmin[0]) or \
-                        (p.interaction_weight is not None and p.interaction_weight < wmin[1]):
+    ant_pos = [(0, 0, -100), (15, 5, -160), (0, 0, 40)]
+    for req, obs in pairs:
+        k = obs["index"]
+        if obs["alias"]:
+            return "event %d: shared mutable state: %s" % (k, "; ".join(obs["alias"]))
+        if obs["has_writer"] and obs["wcall"] is None:
+            return "event %d: writer not called once per event" % k
+        for i in range(3):
+            exp = []
+            for p in obs["particles"]:
+                if isinstance(wmin, tuple):
+                    if (p.survival_weight is not None and p.survival_weight < wmin[0]) or \
+                            (p.interaction_weight is not None and p.interaction_weight < wmin[1]):
+                        continue
+                elif p.weight < (0 if wmin is None else wmin):
                     continue
-            elif p.weight < (0 if wmin is None else wmin):
-                continue
-            rt = tracer(p.vertex, a.position, ice_model=ice)
-            if rt.exists:
-                exp += list(rt.solutions)
-        if len(a.signals) != len(exp):
-            return "antenna %d received %d signals for %d ray solutions" % (i, len(a.signals), len(exp))
-        for s, path in zip(a.signals, exp):
-            if not np.allclose(s.times, setup.times + path.tof, rtol=1e-12, atol=0):
-                return "antenna %d: a signal is not on signal_times + tof" % i
-        if obs["writer"] is not None:
-            w = obs["writer"].calls[0]
-            if len(w["ray_paths"][i]) != len(exp) or len(w["polarizations"][i]) != len(exp):
-                return "antenna %d: %d ray_paths / %d polarizations for %d signals" % (
-                    i, len(w["ray_paths"][i]), len(w["polarizations"][i]), len(exp))
-            for q, path in zip(w["ray_paths"][i], exp):
-                if not fw.close(q.tof, path.tof, 1e-12, 0):
-                    return "antenna %d: ray_paths not aligned with the received signals" % i
+                rt = tracer(p.vertex, ant_pos[i], ice_model=ice)
+                if rt.exists:
+                    exp += list(rt.solutions)
+            if obs["nsig"][i] != len(exp):
+                return "event %d: antenna %d received %d signals for %d ray solutions" % (k, i, obs["nsig"][i], len(exp))
+            for t, got, path in zip(obs["stored"][i], obs["recv"][i], exp):
+                if not np.allclose(t, setup.times + path.tof, rtol=1e-12, atol=0) \
+                        or not np.allclose(got[2], setup.times + path.tof, rtol=1e-12, atol=0):
+                    return "event %d: antenna %d: a signal is not on signal_times + tof of its ray solution" % (k, i)
+            if obs["wcall"] is not None:
+                w = obs["wcall"]
+                if len(w["ray_paths"][i]) != len(exp) or len(w["polarizations"][i]) != len(exp):
+                    return "event %d: antenna %d: writer got %d ray_paths / %d polarizations for %d signals" % (
+                        k, i, len(w["ray_paths"][i]), len(w["polarizations"][i]), len(exp))
+                for q, path in zip(w["ray_paths"][i], exp):
+                    if not same_path(np, q, path):
+                        return "event %d: antenna %d: ray_paths not aligned with the received signals" % (k, i)
     return None
 
 
